@@ -72,6 +72,11 @@ pub fn scenario_from_params(spec: &JobSpec) -> Option<Scenario> {
     if let Some(p) = spec.params.get("program").and_then(|v| v.as_str()) {
         let mut sc = Scenario::standard(p, Limits::calibration());
         sc.label = spec.params.get("label").and_then(|v| v.as_str()).unwrap_or("program").to_string();
+        if spec.params.get("finite").and_then(|v| v.as_bool()).unwrap_or(false) {
+            sc.reference_budgets = Some((2_000, 20_000));
+            sc.limits.search = Some(2_000);
+            sc.limits.ud_call = Some(20_000);
+        }
         return Some(sc);
     }
     None
@@ -87,6 +92,10 @@ pub struct Base {
 pub fn reference_scenario(sc: &Scenario) -> Scenario {
     let mut r = sc.clone();
     r.limits = Limits::calibration();
+    if let Some((search, calls)) = sc.reference_budgets {
+        r.limits.search = Some(search);
+        r.limits.ud_call = Some(calls);
+    }
     r.env.writer.clear();
     r.env.alloc_tick_ns = 0;
     r.env.read_tick_ns = 0;
@@ -103,6 +112,7 @@ pub fn violation(property: &str, check: &str, f: Finding, sc: &Scenario) -> Viol
         detail: format!("{} [{}]", f.2, sc.label),
         check: check.to_string(),
         scenario: Some(sc.clone()),
+        job_index: None,
     }
 }
 
